@@ -445,8 +445,11 @@ int reftable_stack_add(struct reftable_stack *st,
 		return err;
 	}
 
-	if (!st->disable_auto_compact)
-		return reftable_stack_auto_compact(st);
+	if (!st->disable_auto_compact) {
+		/* The transaction is committed: a compaction that fails must
+		   not make the add report a failure. */
+		reftable_stack_auto_compact(st);
+	}
 
 	return 0;
 }
